@@ -1,12 +1,13 @@
 (* Run_C16.v — entry points evaluated by the correspondence harness for C16.  No proofs here. *)
 From DV Require Export Pipeline.
 
-(* CSched d nf ms sigma batch : initial rows/references d, nf scalar fields observed, the mutations,
+(* CSched rights d nf ms sigma batch : the rooms known to the authorisation state with the date from
+   which the caller's right is revoked, initial rows/references d, nf scalar fields observed, the mutations,
    the schedule executed against the real phases; [batch] only tells the harness whether adjacent
    writes share one transaction (as the batch writer does) — the model does not look at it.
    CNote : an observation-only record (real service driven through mutation_stream): nothing to decide *)
 Inductive c16case :=
-| CSched (d : db) (nf : N) (ms : list mutation) (sigma : list ev) (batch : bool)
+| CSched (rights : list (N * Z)) (d : db) (nf : N) (ms : list mutation) (sigma : list ev) (batch : bool)
 | CNote.
 
 (* ---- observation of a database state ---- *)
@@ -31,12 +32,22 @@ Fixpoint ins_sorted (x : edge) (l : list edge) : list edge :=
 Definition sort_edges (l : list edge) : list edge := fold_right ins_sorted [] l.
 Definition obs_edge (e : edge) : list Z := [zn (e_src e); zn (e_label e); zn (e_dest e); e_cdate e].
 
+Fixpoint ins_row (x : row) (l : list row) : list row :=
+  match l with
+  | [] => [x]
+  | y :: t => if N.leb (r_id x) (r_id y) then x :: y :: t else y :: ins_row x t
+  end.
+Definition sort_rows (l : list row) : list row := fold_right ins_row [] l.
+(* rows by id (rowids are not part of the observation), then references by (source, field, target) *)
 Definition obs_db (nf : N) (d : db) : list Z :=
-  flat_map (obs_row nf) (rows d) ++ flat_map obs_edge (sort_edges (edges d)).
+  flat_map (obs_row nf) (sort_rows (rows d)) ++ flat_map obs_edge (sort_edges (edges d)).
 
-(* acknowledgements (1 = written and acknowledged, 0 = answered with an error) then the final state *)
+(* acknowledgements (1 = written and acknowledged, 2 = refused by the validation, 0 = error at
+   read time) then the final state *)
+Definition ack_code (s : st) (i : nat) : Z :=
+  if memn i (s_acked s) then 1 else if memn i (s_refused s) then 2 else 0.
 Definition outcome (n : nat) (nf : N) (s : st) : list Z :=
-  map (fun i => zb (memn i (s_acked s))) (seq 0 n) ++ obs_db nf (s_db s).
+  map (ack_code s) (seq 0 n) ++ obs_db nf (s_db s).
 
 (* ---- all orders of n mutations ---- *)
 Fixpoint insert_all (x : nat) (l : list nat) : list (list nat) :=
@@ -68,8 +79,8 @@ Fixpoint split_chunks (fuel : nat) (l : list Z) : option (list (list Z)) :=
       end
   end.
 
-Definition serial_outcome (d : db) (nf : N) (ms : list mutation) (pi : list nat) : list Z :=
-  match run_sched d ms (serial_sched pi) with
+Definition serial_outcome (rights : list (N * Z)) (d : db) (nf : N) (ms : list mutation) (pi : list nat) : list Z :=
+  match run_sched rights d ms (serial_sched pi) with
   | Some s => outcome (length ms) nf s
   | None => []
   end.
@@ -78,9 +89,9 @@ Definition serial_outcome (d : db) (nf : N) (ms : list mutation) (pi : list nat)
    every serial order (the harness really runs each of them on a fresh copy of the initial state) *)
 Definition run_chunks (c : c16case) : list (list Z) :=
   match c with
-  | CSched d nf ms sigma _ =>
-      match run_sched d ms sigma with
-      | Some s => outcome (length ms) nf s :: map (serial_outcome d nf ms) (perms (seq 0 (length ms)))
+  | CSched rt d nf ms sigma _ =>
+      match run_sched rt d ms sigma with
+      | Some s => outcome (length ms) nf s :: map (serial_outcome rt d nf ms) (perms (seq 0 (length ms)))
       | None => []
       end
   | CNote => []
@@ -116,23 +127,44 @@ Definition room_changes (old : row) (m : mutation) : bool :=
   | Some r => negb (opt_eqb N.eqb (r_room old) (Some r))
   | None => false
   end.
+Definition spec_new_rows_edges (m : mutation) (es : list edge) (all : list edge) : list edge :=
+  fold_left (fun acc e => insert_edge e acc)
+    (flat_map (spec_new_edges (m_row m) (m_date m) es) (m_refs m))
+    (filter (fun e => negb (N.eqb (e_src e) (m_row m) && label_removed es (m_refs m) (e_label e))) all).
 Definition spec_apply (m : mutation) (d : db) : db :=
-  match find_row (m_row m) d with
-  | None => d
-  | Some old =>
-      let x := m_row m in
-      let es := edges_of x d in
-      let changed := negb (is_nil (m_assign m)) || existsb (spec_ref_effective es) (m_refs m)
-                     || room_changes old m in
-      let new := {| r_id := r_id old;
-                    r_room := match m_room m with Some r => Some r | None => r_room old end;
-                    r_mdate := m_date m;
-                    r_fields := merge_fields (r_fields old) (m_assign m) |} in
-      {| rows := if changed then map (fun r => if N.eqb (r_id r) x then new else r) (rows d) else rows d;
-         edges := fold_left (fun acc e => insert_edge e acc)
-                    (flat_map (spec_new_edges x (m_date m) es) (m_refs m))
-                    (filter (fun e => negb (N.eqb (e_src e) x && label_removed es (m_refs m) (e_label e)))
-                            (edges d)) |}
+  let x := m_row m in
+  let es := edges_of x d in
+  match m_kind m with
+  | KUpdate =>
+      match find_row x d with
+      | None => d
+      | Some old =>
+          let changed := negb (is_nil (m_assign m)) || existsb (spec_ref_effective es) (m_refs m)
+                         || room_changes old m in
+          let new := {| r_id := r_id old; r_rowid := r_rowid old;
+                        r_room := match m_room m with Some r => Some r | None => r_room old end;
+                        r_mdate := m_date m;
+                        r_fields := merge_fields (r_fields old) (m_assign m) |} in
+          {| rows := if changed then map (fun r => if N.eqb (r_id r) x then new else r) (rows d) else rows d;
+             edges := spec_new_rows_edges m es (edges d); db_floor := db_floor d |}
+      end
+  | KCreate =>
+      (* a new row: the assigned fields (the parser has added the defaults), its room, its references *)
+      match find_row x d with
+      | Some _ => d
+      | None =>
+          {| rows := rows d ++ [{| r_id := x; r_rowid := next_rowid d; r_room := m_room m;
+                                   r_mdate := m_date m; r_fields := merge_fields [] (m_assign m) |}];
+             edges := spec_new_rows_edges m es (edges d); db_floor := db_floor d |}
+      end
+  | KDelete =>
+      (* the row and the references that start from it are gone; deleting what is not there does nothing *)
+      match find_row x d with
+      | None => d
+      | Some _ =>
+          {| rows := filter (fun r => negb (N.eqb (r_id r) x)) (rows d);
+             edges := filter (fun e => negb (N.eqb (e_src e) x)) (edges d); db_floor := db_floor d |}
+      end
   end.
 Definition spec_apply_i (ms : list mutation) (d : db) (i : nat) : db :=
   match nth_error ms i with Some m => spec_apply m d | None => d end.
@@ -148,7 +180,7 @@ Definition acked_of (acks : list Z) : list nat :=
    compared with the model (correspondence) and judged themselves as cases of their own. ---- *)
 Definition spec_chunks (c : c16case) (ch : list (list Z)) : bool :=
   match c with
-  | CSched d nf ms sigma _ =>
+  | CSched _ d nf ms sigma _ =>
       match ch with
       | h :: _ =>
           let n := length ms in
@@ -182,11 +214,11 @@ Definition complete (n : nat) (sigma : list ev) : bool :=
    room different from the row's room changes no field and no reference: the code then writes
    nothing ("nothing changed, the node will not be updated") and the acknowledged move is dropped *)
 Definition ignored_move (d : db) (m : mutation) : bool :=
-  match find_row (m_row m) d with
-  | Some old =>
+  match m_kind m, find_row (m_row m) d with
+  | KUpdate, Some old =>
       room_changes old m &&
       negb (negb (is_nil (m_assign m)) || existsb (spec_ref_effective (edges_of (m_row m) d)) (m_refs m))
-  | None => false
+  | _, _ => false
   end.
 Fixpoint moves_ok (ms : list mutation) (d : db) (pi : list nat) : bool :=
   match pi with
@@ -196,10 +228,32 @@ Fixpoint moves_ok (ms : list mutation) (d : db) (pi : list nat) : bool :=
   end.
 Definition known_C16 (c : c16case) : list Z :=
   match c with
-  | CSched d nf ms sigma _ =>
+  | CSched _ d nf ms sigma _ =>
       (if windows_ok ms [] sigma then [] else [1]) ++
       (if forallb (moves_ok ms d) (perms (seq 0 (length ms))) then [] else [2])
   | CNote => []
+  end.
+
+(* well-formed cases (what the harness generates): row ids and rowids are unique, rowids of other
+   entities' rows are below db_floor.., and the id drawn for a new row is new in every order *)
+Fixpoint nodupb (l : list N) : bool :=
+  match l with [] => true | x :: t => negb (existsb (N.eqb x) t) && nodupb t end.
+Definition wf_db (d : db) : bool := nodupb (map r_id (rows d)) && nodupb (map r_rowid (rows d)).
+Fixpoint creates_fresh (ms : list mutation) (d : db) (pi : list nat) : bool :=
+  match pi with
+  | [] => true
+  | i :: t => match nth_error ms i with
+              | Some m => match m_kind m, find_row (m_row m) d with
+                          | KCreate, Some _ => false
+                          | _, _ => true
+                          end
+              | None => true
+              end && creates_fresh ms (apply ms d i) t
+  end.
+Definition wf_case (c : c16case) : bool :=
+  match c with
+  | CSched _ d nf ms sigma _ => wf_db d && forallb (creates_fresh ms d) (perms (seq 0 (length ms)))
+  | CNote => true
   end.
 
 Definition eval_C16 (c : c16case) (obs : list Z) : list Z :=
